@@ -285,3 +285,42 @@ pub fn generate_exhaustive(_ctx: &mut Ctx, kind: &str, maxlen: usize, i: usize) 
         ..Default::default()
     }
 }
+
+// ------------------------------------------------------------------------------------------------
+// every sequence of start / end tags up to a length (balanced or not), several tags per comment or one per comment
+
+pub fn tagseq_count(maxlen: usize) -> usize {
+    4 * (0..=maxlen).map(|l| 1usize << l).sum::<usize>()
+}
+
+pub fn generate_tagseq(_ctx: &mut Ctx, maxlen: usize, i: usize) -> Case {
+    let layout = i % 4;
+    let mut s = i / 4;
+    let mut len = 0;
+    while s >= (1usize << len) { s -= 1usize << len; len += 1; }
+    let _ = maxlen;
+    let (path, open, close) = [("t.py", "# ", ""), ("t.rs", "// ", ""), ("t.c", "/* ", " */"), ("t.html", "<!-- ", " -->")][layout];
+    let mut src = String::from(if layout == 3 { "<p>x</p>\n" } else { "" });
+    let mut k = 0;
+    let mut j = 0;
+    while j < len {
+        // layouts 2 and 3 put up to two tags into one comment
+        let group = if layout >= 2 && j + 1 < len && (s >> j) & 3 != 2 { 2 } else { 1 };
+        let mut body = String::new();
+        for g in 0..group {
+            let is_start = (s >> (j + g)) & 1 == 0;
+            if is_start { body += &format!("<block name=\"n{k}\">"); k += 1; } else { body += "</block>"; }
+            if g + 1 < group { body += " and "; }
+        }
+        src += &format!("{open}{body}{close}\nline {j}\n");
+        j += group;
+    }
+    Case {
+        files: vec![(path.to_string(), Some(src))],
+        walk: vec![path.to_string()],
+        allow: vec![path.to_string()],
+        scan: true,
+        meta: json!({"gen": "tagseq", "i": i, "len": len, "word": (0..len).map(|j| if (s >> j) & 1 == 0 { '0' } else { '1' }).collect::<String>()}),
+        ..Default::default()
+    }
+}
